@@ -17,6 +17,7 @@ type SExpr struct {
 	Int  string
 	Str  string
 	Pos  int
+	Recv *SExpr // for a call written x.M(args): the receiver expression x (Name is then the full text "x.M")
 }
 
 func (e *SExpr) String() string {
@@ -282,7 +283,11 @@ func (p *specParser) postfix(x *SExpr) *SExpr {
 			default:
 				p.fail("call of non-identifier")
 			}
-			x = &SExpr{Kind: "call", Name: name, Args: args, Pos: x.Pos}
+			var recv *SExpr
+			if x.Kind == "field" {
+				recv = x.Args[0]
+			}
+			x = &SExpr{Kind: "call", Name: name, Args: args, Pos: x.Pos, Recv: recv}
 		case p.isOp("["):
 			p.next()
 			var lo, hi *SExpr
